@@ -1,1 +1,2 @@
 import SnootyVerif.Properties.C09
+import SnootyVerif.Properties.C06
